@@ -1318,6 +1318,14 @@ func (ev *Env) builtinSpec(name string, argEs []Expr) (T, bool) {
 	case "f64bits":
 		vc.decl("math.Float64bits", "(declare-fun math.Float64bits (Real) Int)")
 		return T{fmt.Sprintf("(math.Float64bits %s)", arg(0).S), "Int", intT}, true
+	case "int32":
+		// int32(x): the Go conversion of an integer to int32 (wraps modulo 2^32)
+		x := arg(0).S
+		m := fmt.Sprintf("(mod %s 4294967296)", x)
+		return T{fmt.Sprintf("(ite (>= %s 2147483648) (- %s 4294967296) %s)", m, m, m), "Int", types.Typ[types.Int32]}, true
+	case "f64frombits":
+		vc.decl("math.Float64frombits", "(declare-fun math.Float64frombits (Int) Real)")
+		return T{fmt.Sprintf("(math.Float64frombits %s)", arg(0).S), "Real", types.Typ[types.Float64]}, true
 	case "f32frombits":
 		vc.decl("math.Float32frombits", "(declare-fun math.Float32frombits (Int) Real)")
 		return T{fmt.Sprintf("(math.Float32frombits %s)", arg(0).S), "Real", types.Typ[types.Float32]}, true
